@@ -10,13 +10,30 @@
 //!      5 bounds g t          [lb1 lb2 lb3 ub1 ub2 ub3] bits
 //!      6 raw g t             container / aux table in storage order
 //!      7 ser g t             serialized bytes
+//!
+//! union cases: cfg = [lg_max_k, 1]; a table of 8 source sketches and one HllUnion
+//!      10 new i lg_k t       slot i := HllSketch::new
+//!      11 cpn i coupon       hook verif_update_with_coupon on slot i
+//!      12 upd i item coupon  public update(item) on slot i
+//!      13 ooo i              array-mode slot i := deserialize(serialize() with the OUT_OF_ORDER flag set)
+//!      14 uni i              union.update(&slot i)
+//!      15 uval item coupon   union.update_value(item)
+//!      16 reset              union.reset()
+//!      17 sdump i            canonical state of slot i
+//!      18 tosk t             canonical state of union.to_sketch(t)
+//!      19 est t              [estimate, lb1..3, ub1..3] bits of union.to_sketch(t)
+//!      20 uinfo              [lg_config_k, lg_max_k, is_empty]
+//!      21 uest               [estimate, lb1..3, ub1..3] bits of the union itself
 use datasketches::common::NumStdDev;
-use datasketches::hll::{HllSketch, HllType};
+use datasketches::hll::{HllSketch, HllType, HllUnion};
 
 use crate::{fbits, Family, Ob, PANIC};
 
 pub struct Fam {
     sk: Vec<HllSketch>,
+    /// union cases (cfg = [lg_max_k, 1]): source sketches and the union
+    slots: Vec<Option<HllSketch>>,
+    union: Option<HllUnion>,
 }
 
 const TYPES: [HllType; 3] = [HllType::Hll4, HllType::Hll6, HllType::Hll8];
@@ -51,19 +68,99 @@ fn dump(s: &HllSketch) -> Ob {
     ob
 }
 
+fn est7(s: &HllSketch) -> Ob {
+    vec![
+        fbits(s.estimate()),
+        fbits(s.lower_bound(NumStdDev::One)),
+        fbits(s.lower_bound(NumStdDev::Two)),
+        fbits(s.lower_bound(NumStdDev::Three)),
+        fbits(s.upper_bound(NumStdDev::One)),
+        fbits(s.upper_bound(NumStdDev::Two)),
+        fbits(s.upper_bound(NumStdDev::Three)),
+    ]
+}
+
+impl Fam {
+    fn ustep(&mut self, code: i64, a: &[i128]) -> Ob {
+        let i = a.first().copied().unwrap_or(0) as usize;
+        match code {
+            10 => {
+                self.slots[i] = Some(HllSketch::new(a[1] as u8, TYPES[a[2] as usize]));
+                vec![]
+            }
+            11 => {
+                self.slots[i].as_mut().unwrap().verif_update_with_coupon(a[1] as u32);
+                vec![]
+            }
+            12 => {
+                self.slots[i].as_mut().unwrap().update(a[1] as i64);
+                vec![]
+            }
+            13 => {
+                let s = self.slots[i].as_ref().unwrap();
+                if s.verif_state().mode == 2 {
+                    let mut b = s.serialize();
+                    b[5] |= 16; // OUT_OF_ORDER_FLAG_MASK
+                    self.slots[i] = Some(HllSketch::deserialize(&b).expect("flagged image must parse"));
+                }
+                vec![]
+            }
+            14 => {
+                let s = self.slots[i].as_ref().unwrap();
+                self.union.as_mut().unwrap().update(s);
+                vec![]
+            }
+            15 => {
+                self.union.as_mut().unwrap().update_value(a[0] as i64);
+                vec![]
+            }
+            16 => {
+                self.union.as_mut().unwrap().reset();
+                vec![]
+            }
+            17 => dump(self.slots[i].as_ref().unwrap()),
+            18 => dump(&self.union.as_ref().unwrap().to_sketch(TYPES[a[0] as usize])),
+            19 => est7(&self.union.as_ref().unwrap().to_sketch(TYPES[a[0] as usize])),
+            20 => {
+                let u = self.union.as_ref().unwrap();
+                vec![u.lg_config_k() as i128, u.lg_max_k() as i128, u.is_empty() as i128]
+            }
+            21 => {
+                let u = self.union.as_ref().unwrap();
+                vec![
+                    fbits(u.estimate()),
+                    fbits(u.lower_bound(NumStdDev::One)),
+                    fbits(u.lower_bound(NumStdDev::Two)),
+                    fbits(u.lower_bound(NumStdDev::Three)),
+                    fbits(u.upper_bound(NumStdDev::One)),
+                    fbits(u.upper_bound(NumStdDev::Two)),
+                    fbits(u.upper_bound(NumStdDev::Three)),
+                ]
+            }
+            _ => vec![PANIC],
+        }
+    }
+}
+
 impl Family for Fam {
     fn new(cfg: &[i128]) -> Self {
         let lg_k = cfg[0] as u8;
+        if cfg.len() >= 2 && cfg[1] == 1 {
+            return Fam { sk: vec![], slots: (0..8).map(|_| None).collect(), union: Some(HllUnion::new(lg_k)) };
+        }
         let mut sk = Vec::new();
         for _g in 0..2 {
             for t in TYPES {
                 sk.push(HllSketch::new(lg_k, t));
             }
         }
-        Fam { sk }
+        Fam { sk, slots: vec![], union: None }
     }
 
     fn step(&mut self, code: i64, a: &[i128]) -> Ob {
+        if self.union.is_some() {
+            return self.ustep(code, a);
+        }
         let g = a[0] as usize;
         match code {
             1 => {
